@@ -39,6 +39,8 @@ claims={
         "Exit 0 only behind verification and validation with the effective options; exit codes by error source; typed download errors producible and preserved by every wrap (%w); errors.As drives code 3; each flag overrides exactly its same-named field with the right size and only when set; parseConfig leaves no nil sub-message."),
  "C09":("wire-layout extraction from SSA (writes of serialisers, field sources of parsers), tiling, parser/serialiser agreement, independent oracle from proto/tdx.proto, narrowing-conversion rule, term tables for the variable tail",
         "Same field <-> same bytes in both directions without gap or overlap for the fixed parts, agreeing with a layout derived independently from the .proto; the stated slices, size/type headers, exact size equalities and concatenation order for the variable tail; pinned constants; the validity predicate closing the parser and opening the serialiser. Byte equality on concrete inputs is a consequence, not what is decided."),
+ "C16":("effects analysis by alias roots over provenance terms: enumeration of every potential write (append, copy, indexed store, PutUintN, non-read-only library callee, message-field store) on the inlined call trees + single-writer rule for package variables",
+        "Parsed byte slices alias only memory cloned inside the parse; no potential write below the verification, validation, chain-extraction and serialisation entry points has a destination rooted in the quote message, the raw input, option byte strings or package variables; package variables on those paths are read-only after initialisation. A sufficient condition for race freedom on a shared quote for every schedule."),
 }
 na={"C11":"acceptance of every honest quote is an existential, value-dependent completeness property; no structural necessary condition of it is both statically checkable and sensitive to realistic over-strict changes (DESIGN.md section 4/C11)"}
 setup="cd /verif/checker && GOFLAGS=-mod=mod GOPROXY=off GOSUMDB=off GOTOOLCHAIN=local GOWORK=off go build -o /verif/bin/tdxlint ./cmd/tdxlint"
